@@ -87,6 +87,7 @@ var craftStructs = []craftStruct{
 	{name: "type3", slots: 2},     // Type 3 font /Resources /Font << /A a /B b >>
 	{name: "tounicode", slots: 1}, // ToUnicode CMap /UseCMap a
 	{name: "refchain", slots: 1},  // n 0 obj  a 0 R  endobj, hung in as the page's /Contents
+	{name: "fields", slots: 2},    // field tree of the interactive form, /Kids [a b]; the terminal is a field merged with its widget on the page
 	// one object nested n deep
 	{name: "nest", vars: []string{"array", "dict", "array-in-dict"}},
 }
@@ -218,6 +219,7 @@ type skeleton struct {
 	fonts     string // extra entries of /Resources /Font
 	content   string // extra content stream operators
 	contents  string // the page's /Contents (default: the content stream)
+	page      string // extra entries of the page dictionary
 }
 
 const (
@@ -247,7 +249,7 @@ func (s *skeleton) finish() []byte {
 	}
 	s.set(objCatalog, "<< /Type /Catalog /Pages 2 0 R "+s.catalog+" >>")
 	s.set(objPagesRoot, "<< /Type /Pages /Kids [ "+kids+" ] /Count 1 /MediaBox [0 0 200 100] >>")
-	s.set(objPage, "<< /Type /Page /Parent 2 0 R /Resources << /Font << /F1 4 0 R "+s.fonts+" >> "+s.resources+" >> /Contents "+contents+" >>")
+	s.set(objPage, "<< /Type /Page /Parent 2 0 R /Resources << /Font << /F1 4 0 R "+s.fonts+" >> "+s.resources+" >> /Contents "+contents+" "+s.page+">>")
 	s.set(objFont, "<< /Type /Font /Subtype /Type1 /BaseFont /Helvetica /Encoding /WinAnsiEncoding >>")
 	s.set(objContent, cstream("", []byte("BT /F1 10 Tf 10 50 Td (Hi) Tj ET\n"+s.content)))
 	return s.bytes(objCatalog)
@@ -398,6 +400,16 @@ func (c craftCase) build() []byte {
 			}
 		}
 		s.contents = ref(nodes[0])
+	case "fields":
+		// the terminal is a text field merged with its single widget, shown on the page
+		leaf := s.add("<< /Type /Annot /Subtype /Widget /Rect [10 10 60 30] /P 3 0 R /FT /Tx /T (leaf) /DA (/F1 10 Tf 0 g) >>")
+		for i := range nodes {
+			la, lb := links(i, leaf, "", "")
+			s.set(nodes[i], fmt.Sprintf("<< /T (n%d) /Kids [ %s%s] >>", i, la, lb))
+		}
+		form := s.add("<< /Fields [ " + ref(nodes[0]) + " ] /DA (/F1 10 Tf 0 g) >>")
+		s.catalog = "/AcroForm " + ref(form)
+		s.page = "/Annots [ " + ref(leaf) + " ] "
 	case "nest":
 		var open, close string
 		switch st.vars[c.a] {
